@@ -1,4 +1,5 @@
 import HexVerif.Lemmas.SimIsa
+import HexVerif.Lemmas.SimMaxCycles
 /-
   C12 — a simulator run depends only on the binary, the input and the options.
   Model: Sim/Model.lean (`Proc.mk'` is the constructor after the D20 repair, `Proc.mkPinned`
@@ -71,5 +72,37 @@ example : ∃ p, load (Proc.mk' ⟨1, Mem.zero, 2, 3⟩ (Isa.IOSt.init []) 0) [0
   refine ⟨{ Proc.mk' ⟨1, Mem.zero, 2, 3⟩ (Isa.IOSt.init []) 0 with
               memory := Mem.zero.loadWords (wordsOfBytes []) }, ?_⟩
   simp [load, loadParts, le32, wordOfBytes, Proc.mk']
+
+/-- **The cycle limit only cuts.**  A limit `m` that the run does not reach within `fuel`
+    iterations changes nothing: the limited `run()` performs exactly the iterations of the
+    unlimited one and the two results differ in the `maxCycles` member only
+    (`Lemmas/SimMaxCycles.lean`, induction over the run with `setMax` commuting with every
+    instruction, the system calls and the trace hook). -/
+theorem C12_limit_only_cuts (fuel : Nat) (p : Proc) (m : Nat) (h0 : p.maxCycles = 0)
+    (hc : p.cycles + fuel ≤ m) :
+    run fuel (setMax p m) = (run fuel p).setMax m ∧
+    obsSim (run fuel (setMax p m)) = obsSim (run fuel p) := by
+  have h := run_setMax fuel p m h0 hc
+  refine ⟨h, ?_⟩
+  rw [h]
+  cases run fuel p with
+  | returned c q => rfl
+  | threw s q => rfl
+  | faulted f q => cases f; rfl
+  | outOfFuel q => rfl
+
+/-- ... hence `C02_run` carries over to limited runs: below the limit, hexsim with
+    `--max-cycles m` and the ISA specification produce the same observation. -/
+theorem C12_limited_run_is_isa (fuel : Nat) (p : Proc) (m k : Nat) (hr : p.running = true)
+    (ht : p.truncateInputs = true) (h0 : p.maxCycles = 0) (hc : p.cycles + fuel ≤ m) :
+    obsSim (run fuel (setMax p m)) = obsIsa (Isa.run fuel (abs p) p.io k) := by
+  rw [(C12_limit_only_cuts fuel p m h0 hc).2]
+  exact run_refines fuel p k hr ht h0
+
+/-- Non-vacuity: the constructor with limit `m` is the unlimited constructor with `setMax`, and
+    satisfies the hypotheses for every `fuel ≤ m`. -/
+example (j : Junk) (io : Isa.IOSt) (m : Nat) :
+    Proc.mk' j io m = setMax (Proc.mk' j io 0) m ∧ (Proc.mk' j io 0).maxCycles = 0 ∧
+    (Proc.mk' j io 0).cycles + m ≤ m := ⟨rfl, rfl, by simp [Proc.mk']⟩
 
 end Hex.Properties.C12
